@@ -393,6 +393,11 @@ func (s *Sim) checkMigrationReconcile(v *recView) {
 	}
 	for _, c := range v.rec.Calls[v.rec.CtlCallIdx:] {
 		if c.Kind == KRev && c.Verb == "create" && c.Err == nil {
+			if c.Name == m.updName {
+				// the record had been removed by then (a create under its very name went
+				// through): recording the template again is the only thing left to do
+				continue
+			}
 			s.violate("C18", "C18.new-revision", "create", fmt.Sprintf("after the migration of %s with an unchanged template the controller created revision %s", v.set.Name, c.Name))
 		}
 		if c.Kind == KPod && c.Verb == "delete" {
